@@ -1655,6 +1655,16 @@ def call(ex, fn, args, kwargs):
             return ex.call_function(f, [fn] + list(args), kwargs)
         ex.throw('TypeError', "'%s' object is not callable" % fn.cls.name)
     if isinstance(fn, Missing):
+        q = getattr(fn, 'qual', None)
+        if q is not None and q in ex.call_contracts:
+            # function of a module outside the verified sources, standing under an assumed contract:
+            # parameters are bound in the order the contract declares them
+            c = ex.call_contracts[q]
+            import ast as _ast
+            src = 'def %s(%s):\n    pass\n' % (q.split('.')[-1], ', '.join(c.params))
+            node = _ast.parse(src).body[0]
+            f = FuncVal(node, None, [], qualname=q)
+            return ex.hooks['apply_contract'](ex, c, f, list(args), kwargs)
         raise Unsupported('call of missing value: %s' % fn.why)
     if fn is None:
         ex.throw('TypeError', "'NoneType' object is not callable")
